@@ -2184,9 +2184,11 @@ static Boolean SymbolAdder(PTree* PDest, PTree Neu, void* pData) {
                     && (as_nonz_dynstr_cmp(
                             &NewEntry->SymWert.Contents.str,
                             &(*Node)->SymWert.Contents.str)))
+                /* (compared as bit patterns: a NaN is unequal to itself as a number,
+                   which asked for another pass in every pass) */
                 || ((NewEntry->SymWert.Typ == TempFloat)
-                    && (NewEntry->SymWert.Contents.Float
-                        != (*Node)->SymWert.Contents.Float))
+                    && memcmp(&NewEntry->SymWert.Contents.Float,
+                              &(*Node)->SymWert.Contents.Float, sizeof(Double)))
                 || ((NewEntry->SymWert.Typ == TempInt)
                     && (NewEntry->SymWert.Contents.Int != (*Node)->EnterVal))) {
                 if ((!Repass) && (JmpErrors > 0)) {
